@@ -279,6 +279,8 @@ class PWrap(Pattern):
         value = next(self.pattern)
         min = Pattern.value(self.min)
         max = Pattern.value(self.max)
+        if value is None:
+            return None
         while value < min:
             value += max - min
         while value >= max:
